@@ -58,6 +58,10 @@ class DataModels:
             v = self.class_attr(I, b, attr, node)
             if v is not _MISSING:
                 return v
+            if getattr(b, 'from_shape', False) and not I.pure and self.class_assigns(I, b.cls, attr):
+                # real instances have this attribute (some method assigns it) but the contract's shape does
+                # not describe it: the contract has to be extended -- not a verdict about the code
+                raise Unsupported('attribute %s.%s exists in the class but is not described by the contract shape' % (b.cls, attr))
             raise PyExc('AttributeError', line_of(node), '%s.%s' % (b.cls, attr))
         if isinstance(b, SStream):
             if attr in ('read', 'seek', 'tell', 'write', 'close', 'getvalue'):
@@ -80,6 +84,33 @@ class DataModels:
             return getattr(b, attr)
         except AttributeError:
             raise PyExc('AttributeError', line_of(node), attr)
+
+    def class_assigns(self, I, clsname, attr):
+        """some method of the class (or of a repository base class) assigns self.<attr>"""
+        import ast as _ast
+        import inspect as _inspect
+        cls = I.calls.real_class(clsname)
+        if cls is None:
+            return False
+        cache = self.__dict__.setdefault('_assigns_cache', {})
+        key = (clsname, attr)
+        if key not in cache:
+            found = False
+            for k in cls.__mro__:
+                if k is object:
+                    continue
+                try:
+                    tree = _ast.parse(_inspect.getsource(_inspect.getmodule(k)))
+                except Exception:
+                    continue
+                for c in _ast.walk(tree):
+                    if isinstance(c, _ast.ClassDef) and c.name == k.__name__:
+                        for n in _ast.walk(c):
+                            if isinstance(n, _ast.Attribute) and n.attr == attr and isinstance(n.ctx, _ast.Store) \
+                                    and isinstance(n.value, _ast.Name) and n.value.id == 'self':
+                                found = True
+            cache[key] = found
+        return cache[key]
 
     def class_attr(self, I, obj, attr, node):
         """class-level attribute or method of a repository class"""
